@@ -1,6 +1,6 @@
 /* Common definitions for all /verif translation units. */
-#ifndef VF_H
-#define VF_H
+#ifndef VF_H_INCLUDED
+#define VF_H_INCLUDED
 #include <stddef.h>
 #include <stdint.h>
 
